@@ -628,7 +628,7 @@ func S7(rc *RC) {
 					continue
 				}
 				n++
-				f := pathF(p)
+				f := pathF(substPathLets(p))
 				sizeEq := ir.ParseBool("($r.Shape().TotalSize() == tensor.Shape($dims).TotalSize())")
 				alt := ir.ParseBool("(tensor.Shape($dims).TotalSize() == $r.Shape().TotalSize())")
 				if !ir.Implies(f, sizeEq) && !ir.Implies(f, alt) {
@@ -872,7 +872,26 @@ func S10(rc *RC) {
 	if norm(r.body) != norm(c.body) {
 		bad = append(bad, "loop bodies differ: "+firstDiff(norm(r.body), norm(c.body)))
 	}
-	if norm(r.body) != norm(wantBody) && norm(c.body) != norm(wantBody) {
+	// the recurrence itself: the stride of the axis is the accumulated product, then the product
+	// takes in the axis' extent - in that order, and nothing else writes either of them
+	// (whatever else the body does: the negative-extent check may be inline or a helper)
+	storesOf := func(body string) string {
+		var stores []string
+		for _, l := range strings.Split(body, "\n") {
+			t := strings.TrimSpace(l)
+			if strings.Contains(t, " = ") && !strings.HasPrefix(t, "if ") {
+				// a range value read after a store is rendered old(x): the same element here
+				t = regexp.MustCompile(`old\(([^()]*)\)`).ReplaceAllString(t, "$1")
+				if m := regexp.MustCompile(`^(\S+) = \((\S+) \* (\S+)\)$`).FindStringSubmatch(t); m != nil && m[3] < m[2] {
+					t = m[1] + " = (" + m[3] + " * " + m[2] + ")"
+				}
+				stores = append(stores, t)
+			}
+		}
+		return alphaNorm(strings.Join(stores, "\n"))
+	}
+	isRecurrence := func(body string) bool { return storesOf(body) == storesOf(wantBody) }
+	if norm(r.body) != norm(wantBody) && norm(c.body) != norm(wantBody) && !(isRecurrence(r.body) && isRecurrence(c.body)) {
 		bad = append(bad, "neither body is the recurrence strides[i] = acc; acc = acc*shape[i]: "+strings.ReplaceAll(r.body, "\n", " ; "))
 	}
 	for _, e := range r.early {
@@ -986,11 +1005,31 @@ func S12(rc *RC) {
 	// the marker statements and their guards
 	var guards []*ir.BExpr
 	orderVar := ""
+	// a marker collected in a boolean inside the loop and applied once after it:
+	// `if c { gaps = true }` … `if gaps { order = MakeDataOrder(order, NonContiguous) }`
+	deferredFlag := map[string]string{}
+	for _, n := range tree {
+		if n.Kind == "if" && strings.HasPrefix(n.Head, "%") && !strings.ContainsAny(n.Head, " (") {
+			for _, k := range n.Kids {
+				if (k.Kind == "let" || k.Kind == "store") && strings.Contains(k.Value, "MakeDataOrder(") && strings.Contains(k.Value, "NonContiguous") {
+					deferredFlag[n.Head] = k.Target
+				}
+			}
+		}
+	}
 	var walk func(ns []*ir.Node, g []*ir.BExpr)
 	walk = func(ns []*ir.Node, g []*ir.BExpr) {
 		for _, n := range ns {
 			switch n.Kind {
 			case "let", "store":
+				if ov, isFlag := deferredFlag[n.Target]; isFlag && n.Value == "true" {
+					orderVar = ov
+					var c *ir.BExpr = ir.BConst(true)
+					for _, x := range g {
+						c = ir.BAnd(c, x)
+					}
+					guards = append(guards, c)
+				}
 				if strings.Contains(n.Value, "MakeDataOrder(") && strings.Contains(n.Value, "NonContiguous") {
 					orderVar = n.Target
 					var c *ir.BExpr = ir.BConst(true)
@@ -1718,4 +1757,38 @@ func S22(rc *RC) {
 	default:
 		rc.S.Ok("S22", "tensor.Ltoi#sum", pos, "offset = sum of coordinate * stride of its own axis")
 	}
+}
+
+// substPathLets replaces, in the guards of a path, locals by the values they were given by
+// earlier definitions on that path (`if want, have := f(x), g(y); want != have`): the guard then
+// speaks about the inputs again.
+func substPathLets(p ir.Path) ir.Path {
+	env := map[string]string{}
+	for _, st := range p.Steps {
+		if (st.Kind == "let" || st.Kind == "store") && ldIdent.FindString(st.Target) == st.Target && strings.HasPrefix(st.Target, "%") {
+			if _, seen := env[st.Target]; !seen {
+				env[st.Target] = st.Value
+			} else {
+				env[st.Target] = "" // assigned more than once: not a definition
+			}
+		}
+	}
+	q := p
+	q.Guards = nil
+	for _, g := range p.Guards {
+		for i := 0; i < 3; i++ {
+			h := ldIdent.ReplaceAllStringFunc(g, func(w string) string {
+				if v, ok := env[w]; ok && v != "" && !strings.Contains(v, w) {
+					return v
+				}
+				return w
+			})
+			if h == g {
+				break
+			}
+			g = h
+		}
+		q.Guards = append(q.Guards, g)
+	}
+	return q
 }
